@@ -3,7 +3,8 @@
 # each confirmed one by the property's own quick check on an isolated copy (neither /repo nor /verif is touched)
 p=$1; r=${2:-r4}
 cd /verif
-for m in ${r}m1 ${r}m2; do
+ms="${r}m1 ${r}m2"; [ -n "$3" ] && ms="$3"
+for m in $ms; do
   s=$(python3 -c "import sys; sys.path.insert(0,'tools'); import seed; print(seed.src('$p','$m'))")
   [ -f "$s/patch.diff" ] || { echo "$p $m MISSING"; continue; }
   python3 tools/seed.py confirm $p $m > /var/tmp/seedrec/confirm-$p-$m.log 2>&1
